@@ -153,6 +153,8 @@ impl Array {
                     }
                 });
 
+                // the delta has its summed dimensions flattened, so match them to the target dimensions
+                let x = Array::from((target_clone.clone(), Rc::clone(&x.values)));
                 vec![Some(Array::sliced_op(
                     vec![&x],
                     &op,
